@@ -46,7 +46,7 @@ func (c07) New() interface{} { return &C07Script{} }
 func (c07) Info() core.Info {
 	return core.Info{
 		Runs: map[string]int{"quick": 1500000, "thorough": 100000000},
-		Rule: "Each run builds one abstract PAT (0..42 entries, distinct program numbers incl. optional program 0, 13-bit PIDs biased above 255, random reserved bits), serialises it with the reference serialiser into a PID-0 packet (with or without adaptation field), places it by a scripted multiplexer among 0..30 packets of other PIDs (optionally followed by a different later PAT, optionally absent, optionally cut by end of stream) and reads it back through ReadPAT over a SimReader with scripted Read outcomes; the payload and 188-byte-packet carriers are decoded in the same run and compared. In a quarter of the error-free runs the reader handed to ReadPAT is a bufio.Reader (16..4096 bytes) over the SimReader; foreign traffic includes PIDs 4..15 and payloads full of fake packet starts. Non-trivial = at least one reach probe fired.",
+		Rule: "Each run builds one abstract PAT (0..42 entries, distinct program numbers incl. optional program 0, 13-bit PIDs biased above 255, random reserved bits), serialises it with the reference serialiser into a PID-0 packet (with or without adaptation field), places it by a scripted multiplexer among 0..30 packets of other PIDs (optionally followed by a different later PAT, optionally absent, optionally cut by end of stream) and reads it back through ReadPAT over a SimReader with scripted Read outcomes; the payload and 188-byte-packet carriers are decoded in the same run and compared. In a quarter of the error-free runs the reader handed to ReadPAT is a bufio.Reader (16..4096 bytes) over the SimReader; foreign traffic includes PIDs 4..15 and payloads full of fake packet starts. Non-trivial = at least one reach probe fired. Added in waves 19-21: refused decodes whose nil-valued result is handed to IsPMT; the stream in a bytes.Buffer that is drained and refilled after the table was read; a stream that ends inside a payload-less PID-0 packet; readers with a Seek method that always fails.",
 		Real: []string{"psi.ReadPAT", "psi.NewPAT", "pat.NumPrograms/ProgramMap/SPTSpmtPID", "psi.IsPMT", "packet.Payload", "io.ReadFull (stdlib)"},
 		Stub: []string{"PAT source + reference serialiser/CRC", "multiplexer (scripted picks)", "SimReader"},
 		Assumptions: []string{
